@@ -20,6 +20,9 @@ func (def *RelationshipDefinition[T]) validate() error {
 	if def.Resolver == nil {
 		return fmt.Errorf("relationship definitions must have a resolver")
 	}
+	if v, ok := def.Resolver.(interface{ validate() error }); ok {
+		return v.validate()
+	}
 	return nil
 }
 
